@@ -3,7 +3,7 @@ from fractions import Fraction as Fr
 
 import numpy as np
 
-from harness.core import Prop, cz, cq, cnat, cbool, clist, coption
+from harness.core import Prop, cz, cq, cnat, cbool, clist, coption  # noqa
 
 from porepy.utils.interpolation_tables import (
     AdaptiveInterpolationTable,
@@ -41,6 +41,16 @@ def _partial(d, cs, x, axis):
 
 def _fr(v):
     return Fr(v[0], v[1])
+
+
+def _pk(x):
+    x = Fr(x)
+    return int(x) if x.denominator == 1 else [x.numerator, x.denominator]
+
+
+def _cf(c):
+    """coefficient: int or [num, den]"""
+    return Fr(c[0], c[1]) if isinstance(c, (list, tuple)) else Fr(c)
 
 
 def _close(a, b):
@@ -117,17 +127,27 @@ class C41(Prop):
         d = rng.choice([1, 1, 2, 2, 2, 3, 3, 4])
         npt = [rng.randint(2, 5) for _ in range(d)]
         dyadic_h = rng.random() < 0.85
+        zero_low = rng.random() < 0.12          # box anchored at the origin (default base point)
         low, high = [], []
+        # one exact power-of-two scale for the whole box (the function is scaled inversely, see
+        # generate) and boxes away from the origin (offset up to 2^8 cells in dimension <= 2):
+        # keeps the float evaluation well conditioned
+        scale = Fr(2) ** rng.choice([0, 0, 0, -12, -6, 6, 12])
         for i in range(d):
             lo = Fr(rng.randint(-16, 16), rng.choice([1, 2, 4]))
+            if d <= 2 and rng.random() < 0.2:
+                lo += rng.choice([-1, 1]) * 2 ** rng.randint(4, 8)
+            if zero_low:
+                lo = Fr(0)
             if dyadic_h:
                 h = Fr(rng.randint(1, 6), rng.choice([1, 2, 4, 8]))
                 hi = lo + (npt[i] - 1) * h
             else:
                 hi = lo + Fr(rng.randint(1, 24), rng.choice([1, 2, 4]))
-            low.append(lo)
-            high.append(hi)
-        return d, npt, low, high, dyadic_h
+            low.append(lo * scale)
+            high.append(hi * scale)
+        self._scale = scale
+        return d, npt, low, high, dyadic_h, zero_low
 
     def _coeffs(self, rng, d):
         cs = [rng.randint(-5, 5) for _ in range(2 ** d)]
@@ -139,8 +159,14 @@ class C41(Prop):
 
     def generate(self, rng, n, tier):
         for it in range(n):
-            d, npt, low, high, dyadic_h = self._grid(rng)
-            cs = self._coeffs(rng, d)
+            d, npt, low, high, dyadic_h, zero_low = self._grid(rng)
+            dim = rng.choice([1, 1, 1, 2, 3])     # dimension of the function range
+            css = [self._coeffs(rng, d) for _ in range(dim)]
+            sc = self._scale
+            if sc != 1:   # f(x) = g(x / scale): coefficient of a product of m variables / scale^m
+                css = [[_pk(Fr(c) / sc ** bin(k).count("1")) for k, c in enumerate(cs)] for cs in css]
+            cs = css[0]
+            hair = False
             hs = [(high[i] - low[i]) / (npt[i] - 1) for i in range(d)]
             kind = "outside" if rng.random() < 0.08 else "inbox"
             near = False
@@ -160,6 +186,10 @@ class C41(Prop):
                 if mode == "near":
                     c = low[i] + k * hs[i] + hs[i] * Fr(1023, 1024)
                     return Fr(float(c))
+                if mode == "hair_hi":      # one ulp inside the upper face
+                    return Fr(float(np.nextafter(float(high[i]), float(low[i]))))
+                if mode == "hair_lo":      # one ulp inside the lower face
+                    return Fr(float(np.nextafter(float(low[i]), float(high[i]))))
                 c = low[i] + k * hs[i] + hs[i] * Fr(rng.randint(1, 7), 8)
                 return Fr(float(c))
 
@@ -175,9 +205,12 @@ class C41(Prop):
                     modes = ["in"] * d
                 elif r < 0.9:
                     modes = [rng.choice(["in", "in", "line", "line", "lower", "upper"]) for _ in range(d)]
-                else:
+                elif r < 0.95:
                     modes = [rng.choice(["in", "near"]) for _ in range(d)]
                     near = near or "near" in modes
+                else:
+                    modes = [rng.choice(["in", "hair_hi", "hair_lo", "upper"]) for _ in range(d)]
+                    hair = hair or any(m.startswith("hair") for m in modes)
                 p = [coord(i, m) for i, m in enumerate(modes)]
                 p = [min(max(c, low[i]), high[i]) for i, c in enumerate(p)]
                 pts.append(p)
@@ -185,46 +218,95 @@ class C41(Prop):
                 i = rng.randrange(d)
                 j = rng.randrange(len(pts))
                 off = Fr(rng.randint(1, 8), 8) * hs[i]
-                pts[j][i] = high[i] + off if rng.random() < 0.5 else low[i] - off
+                r = rng.random()
+                if r < 0.3:
+                    pts[j][i] = high[i] + off
+                elif r < 0.6:
+                    pts[j][i] = low[i] - off
+                elif r < 0.8:      # one ulp outside the upper face
+                    pts[j][i] = Fr(float(np.nextafter(float(high[i]), float("inf"))))
+                    hair = True
+                else:              # one ulp outside the lower face
+                    pts[j][i] = Fr(float(np.nextafter(float(low[i]), float("-inf"))))
+                    hair = True
             yield {
                 "d": d, "npt": npt,
                 "low": [[c.numerator, c.denominator] for c in low],
                 "high": [[c.numerator, c.denominator] for c in high],
-                "cs": cs,
+                "cs": cs, "css": css, "default_base": bool(zero_low),
                 "pts": [[[c.numerator, c.denominator] for c in p] for p in pts],
                 "kind": kind,
-                "cmp_store": bool(dyadic_h and not near),
+                "cmp_store": bool(dyadic_h and not near and not hair),
             }
 
     # ---------------------------------------------------------------- implementation
     def run_impl(self, case):
         d = case["d"]
-        cs = [float(c) for c in case["cs"]]
+        css = [[float(_cf(c)) for c in cs] for cs in case.get("css", [case["cs"]])]
+        dim = len(css)
         low = np.array([float(_fr(v)) for v in case["low"]])
         high = np.array([float(_fr(v)) for v in case["high"]])
         npt = np.array(case["npt"], dtype=int)
         X = np.array([[float(_fr(c)) for c in p] for p in case["pts"]]).T.reshape(d, -1)
+        npts = X.shape[1]
 
         def func(*c):
-            return _mlin(d, cs, [float(z) for z in c])
+            z = [float(v) for v in c]
+            if dim == 1:
+                return _mlin(d, css[0], z)
+            return np.array([_mlin(d, cs, z) for cs in css])
 
-        t = InterpolationTable(low, high, npt, func)
-        interp = _call(lambda: t.interpolate(X.copy()))
-        grads = [_call(lambda ax=ax: t.gradient(X.copy(), ax)) for ax in range(d)]
+        def split(o):
+            """per-component outputs of a (dim, npts) result"""
+            if o[0] == "err":
+                return [o] * dim
+            v = np.asarray(o[1]).reshape(dim, -1)
+            return [["vals", [float(z) for z in v[k]]] for k in range(dim)]
 
-        a = AdaptiveInterpolationTable(dx=(high - low) / (npt - 1), base_point=low, function=func)
-        aq, aout = [], []
-        for j in range(X.shape[1]):
-            x = X[:, j].reshape(d, 1)
-            v = a.interpolate(x.copy())
-            aq.append([j, None])
-            aout.append(float(np.asarray(v).ravel()[0]))
-            for ax in range(d):
-                v = a.gradient(x.copy(), ax)
-                aq.append([j, ax])
-                aout.append(float(np.asarray(v).ravel()[0]))
-        return {"interp": interp, "grads": grads, "aq": aq, "aout": aout,
-                "nstored": int(a._table._coords.shape[1])}
+        def call(fn):
+            try:
+                return ["vals", np.asarray(fn(), dtype=float)]
+            except ValueError:
+                return ["err", "ValueErr"]
+            except IndexError:
+                return ["err", "IndexErr"]
+            except AssertionError:
+                return ["err", "AssertErr"]
+
+        t = InterpolationTable(low, high, npt, func, dim=dim)
+        Xc = X.copy()
+        interp = split(call(lambda: t.interpolate(Xc)))
+        grads = [split(call(lambda ax=ax: t.gradient(Xc, ax))) for ax in range(d)]
+        assert np.array_equal(Xc, X), "query points were modified in place"
+        # a single point handed over as a 1-D array
+        single = split(call(lambda: t.interpolate(X[:, 0].copy())))
+
+        base = None if case.get("default_base") else low
+        a = AdaptiveInterpolationTable(dx=(high - low) / (npt - 1), base_point=base, function=func,
+                                       dim=dim)
+        nstored = lambda: int(a._table._coords.shape[1])
+        aq, aout = [], [[] for _ in range(dim)]
+        aerr = None
+        try:
+            for j in range(npts):
+                x = X[:, j].reshape(d, 1)
+                v = np.asarray(a.interpolate(x.copy())).reshape(dim)
+                aq.append([j, None])
+                for k in range(dim):
+                    aout[k].append(float(v[k]))
+                for ax in range(d):
+                    v = np.asarray(a.gradient(x.copy(), ax)).reshape(dim)
+                    aq.append([j, ax])
+                    for k in range(dim):
+                        aout[k].append(float(v[k]))
+        except (AssertionError, ValueError, IndexError) as e:
+            aerr = type(e).__name__
+            aq = aq[:min(len(o) for o in aout)]
+            aout = [o[:len(aq)] for o in aout]
+        comps = [{"interp": interp[k], "grads": [g[k] for g in grads], "aout": aout[k],
+                  "single": single[k]} for k in range(dim)]
+        return {"comps": comps, "aq": aq, "aerr": aerr, "nstored": nstored(),
+                "interp": comps[0]["interp"], "grads": comps[0]["grads"], "aout": comps[0]["aout"]}
 
     # ---------------------------------------------------------------- oracle
     def _inbox(self, case, p):
@@ -234,10 +316,21 @@ class C41(Prop):
         from harness.core import has_nonfinite
         if has_nonfinite(res):
             return "a query inside the closed box returned a non-finite value (nan/inf)"
-        d, cs = case["d"], case["cs"]
-        pts = [[_fr(c) for c in p] for p in case["pts"]]
         if not all(self._inbox(case, p) for p in case["pts"]):
             return None  # the property speaks about points of the box only
+        if res.get("aerr"):
+            return f"adaptive table raised {res['aerr']} on points of the closed box"
+        css = case.get("css", [case["cs"]])
+        for k, (cs, comp) in enumerate(zip(css, res["comps"])):
+            why = self._oracle_component(case, cs, dict(comp, aq=res["aq"]))
+            if why:
+                return why if len(css) == 1 else f"component {k} of the vector-valued table: {why}"
+        return None
+
+    def _oracle_component(self, case, cs, res):
+        d = case["d"]
+        cs = [_cf(c) for c in cs]
+        pts = [[_fr(c) for c in p] for p in case["pts"]]
         affine = _is_affine(d, cs)
         if res["interp"][0] == "err":
             return f"interpolate raised {res['interp'][1]} on points of the closed box"
@@ -257,6 +350,13 @@ class C41(Prop):
                     if not _close(Fr(g[1][j]), c):
                         return (f"gradient(axis={ax}) of a linear function at point {j} "
                                 f"{[str(c_) for c_ in p]} = {g[1][j]!r}, exact {float(c)!r}")
+        sg = res.get("single")
+        if sg is not None:
+            if sg[0] == "err":
+                return f"interpolate of a single point given as a 1-D array raised {sg[1]}"
+            if not _close(Fr(sg[1][0]), _mlin(d, cs, pts[0])):
+                return (f"interpolate of a single point given as a 1-D array = {sg[1][0]!r}, "
+                        f"multilinear function = {float(_mlin(d, cs, pts[0]))!r}")
         for (j, ax), v in zip(res["aq"], res["aout"]):
             std = res["interp"][1][j] if ax is None else res["grads"][ax][1][j]
             if not _close(Fr(v), Fr(std)):
@@ -272,17 +372,29 @@ class C41(Prop):
         pts = case["pts"]
         xs = clist(pts, lambda p: clist(p, q))
         aq = clist(res["aq"], lambda jq: "(" + clist(pts[jq[0]], q) + ", " + coption(jq[1], cnat) + ")")
-        return ("agree_case " + " ".join([
-            cnat(d), clist(case["low"], q), clist(case["high"], q), clist(case["npt"], cz),
-            clist(case["cs"], lambda c: cq(Fr(c))), xs, _out(res["interp"]),
-            clist(res["grads"], _out), aq, _out(["vals", res["aout"]]),
-            cbool(case["cmp_store"]), cz(res["nstored"])]))
+        css = case.get("css", [case["cs"]])
+        terms = []
+        tiny = bool(case.get("tiny"))   # known-bad region of the adaptive table: standard table only
+        for cs, comp in zip(css, res["comps"]):
+            terms.append("agree_case " + " ".join([
+                cnat(d), clist(case["low"], q), clist(case["high"], q), clist(case["npt"], cz),
+                clist(cs, lambda c: cq(_cf(c))), xs, _out(comp["interp"]),
+                clist(comp["grads"], _out), "[]" if tiny else aq,
+                _out(["vals", [] if tiny else comp["aout"]]),
+                cbool(case["cmp_store"] and not tiny), cz(res["nstored"])]))
+            # the single point handed over as a 1-D array
+            t = (f"mk_table {clist(case['low'], q)} {clist(case['high'], q)} {clist(case['npt'], cz)} "
+                 f"(mlin {cnat(d)} {clist(cs, lambda c: cq(_cf(c)))})")
+            terms.append(f"agree_out {_out(comp['single'])} (interpolate_batch ({t}) [{clist(pts[0], q)}])")
+        if res.get("aerr"):
+            terms.append("false")      # the model's adaptive table never raises inside the box
+        return " && ".join(f"({t})" for t in terms)
 
     def coq_diag(self, case, res):
         d = case["d"]
         q = lambda v: cq(_fr(v))
         t = (f"mk_table {clist(case['low'], q)} {clist(case['high'], q)} {clist(case['npt'], cz)} "
-             f"(mlin {cnat(d)} {clist(case['cs'], lambda c: cq(Fr(c)))})")
+             f"(mlin {cnat(d)} {clist(case['cs'], lambda c: cq(_cf(c)))})")
         xs = clist(case["pts"], lambda p: clist(p, q))
         return f"(interpolate_batch ({t}) {xs}, map (gradient_batch ({t}) {xs}) (seq 0 {cnat(d)}))"
 
@@ -293,6 +405,8 @@ class C41(Prop):
         return case["kind"] == "inbox" and any(self._on_upper(case, p) for p in case["pts"])
 
     def finding_key(self, case, res, why):
+        if case.get("tiny") and "adaptive" in why:
+            return "AdaptiveInterpolationTable: mesh size near the absolute 1e-10 coordinate tolerance"
         up = any(self._on_upper(case, p) for p in case["pts"])
         if up and ("gradient" in why or "raised" in why):
             return "InterpolationTable: query point on the upper box face"
